@@ -160,8 +160,6 @@ def session_cases(ctx, cases, meta):
                                           'request in unsupported KMIP %s was not refused with InvalidMessage by the session' % c16.vstr(v))
     finally:
         sc.close()
-    mixed_version_cases(ctx, cases, meta)
-    answer_path_cases(ctx, cases, meta)
 
 
 # ====================================================================================== several versions on ONE connection
@@ -260,6 +258,7 @@ def mixed_version_cases(ctx, cases, meta):
         lambda v: [kdrv.create(names=()), kdrv.register(), kdrv.get_attributes(sc.priv, ['Cryptographic Algorithm', 'State', 'Sensitive'])],
     ]
     nbad = 0
+    hvs = c16.header_variants(eng)
     try:
         for k, seq in enumerate(seqs):
             picks = []
@@ -269,7 +268,11 @@ def mixed_version_cases(ctx, cases, meta):
                 f = flavours[(k + j) % len(flavours)] if (j or k % 2) else flavours[2]
                 items = f(v)
                 picks.append([i[0].name for i in items])
-                stream += sessdrv.encode_request(eng.build(items, version=v, batch_option=enums.BatchErrorContinuationOption.CONTINUE), v)
+                hname, hkw = hvs[(k + 2 * j) % len(hvs)]
+                hkw = dict(hkw)
+                hkw['batch_option'] = enums.BatchErrorContinuationOption.CONTINUE
+                picks[-1].append('header:' + hname)
+                stream += sessdrv.encode_request(eng.build(items, version=v, **hkw), v)
             obs, conn = sessdrv.run_spec(proxy, sessdrv.default_spec(stream, ts=eng.clock.t), dumps=False)
             frames = obs['frames']
             if len(frames) != len(seq):
